@@ -263,7 +263,10 @@ def run_script(mod, script):
             if gen.running:
                 rig.anomalies.append("running-after-worker-exit")
             gen.stop()               # the real stop(): set, join, reset
-            if gen._thread is not None or gen._breaker.is_set():
+            # (private attributes, read by name when they exist: a stop() that does not reset also shows
+            # in the next epoch, which start() then refuses)
+            th, br = getattr(gen, "_thread", None), getattr(gen, "_breaker", None)
+            if th is not None or (br is not None and br.is_set()):
                 rig.anomalies.append("stop-did-not-reset")
             if rig.ns > VT_LIMIT:
                 break
